@@ -53,14 +53,14 @@ pub(crate) fn align_edge_points(
                 if snap {
                     point.x = edge.pos;
                 } else {
-                    point.x += delta;
+                    point.x = point.x.wrapping_add(delta);
                 }
                 point.flags.set_marker(PointMarker::TOUCHED_X);
             } else {
                 if snap {
                     point.y = edge.pos;
                 } else {
-                    point.y += delta;
+                    point.y = point.y.wrapping_add(delta);
                 }
                 point.flags.set_marker(PointMarker::TOUCHED_Y);
             }
